@@ -8,7 +8,7 @@
 From Coq Require Import List NArith ZArith Bool.
 From Acg Require Import Base.Str Base.Outcome Model.InferExpr Model.LenInfer Model.PatternInfer
      Model.SetInfer Model.InferInline Proofs.InferGen Proofs.InferLen Proofs.InferSet
-     Gen.GenInfer.
+     Proofs.InferCompose Gen.GenInfer.
 Import ListNotations.
 Open Scope Z_scope.
 
@@ -246,23 +246,100 @@ Example C15_unrecognised_examples :
 Proof. exact unrecognised_examples. Qed.
 Print Assumptions C15_unrecognised_examples.
 
+(** [merge_constraints_meet]: whenever [_merge_constraints] returns, its result holds of
+    a value (length, matched patterns, literal, enumeration literal) exactly when both
+    operands do. *)
+Theorem C15_merge_constraints_meet : forall a b c,
+  merge_constraints (E := nat) a b = Ok c ->
+  forall v, holds_opt c v <-> (holds_opt a v /\ holds_opt b v).
+Proof. exact (merge_constraints_meet nat). Qed.
+Print Assumptions C15_merge_constraints_meet.
+
+(** The induction over the topological order. After a successful stacking, the
+    constraints of a constrained primitive are the conjunction of the first-pass
+    constraints of the primitive and of ALL its ancestors ([topo]: no parent is listed at
+    or after its child — the order in which the code must, and the model does, stack;
+    the declaration order of the text is irrelevant) ... *)
+Theorem C15_cprims_stack_exact : forall cps local final,
+  cprims_pass2 cps local 0 = Ok final ->
+  NoDup (map cp_name cps) -> topo cps -> parents_closed_cp cps ->
+  forall cp, In cp cps ->
+  forall v, holds_opt (alookup (cp_name cp) final) v
+            <-> (forall a, cp_ancestor_or_self cps (cp_name cp) a -> holds_opt (alookup a local) v).
+Proof. exact cprims_stack_exact. Qed.
+Print Assumptions C15_cprims_stack_exact.
+
+(** ... and the constraints of a class on a value (key = property name and nesting
+    level) are the conjunction of the first-pass constraints of the class and of all its
+    ancestors on that value. *)
+Theorem C15_classes_stack_exact : forall cs local final,
+  classes_pass2 cs local 0 = Ok final ->
+  NoDup (map c_name cs) -> ctopo cs -> all_nodup local -> parents_closed_c cs ->
+  forall c, In c cs ->
+  forall k v, holds_opt (look final (c_name c) k) v
+              <-> (forall a, c_ancestor_or_self cs (c_name c) a -> holds_opt (look local a k) v).
+Proof. exact classes_stack_exact. Qed.
+Print Assumptions C15_classes_stack_exact.
+
+(** [infer_stack_exact]: both facts for the result of [infer_constraints_by_class]
+    itself, for every well-formed meta-model (unique names, parents listed first and
+    present). *)
+Theorem C15_infer_stack_exact : forall m res,
+  infer m = Ok res ->
+  NoDup (map cp_name (m_cprims m)) -> topo (m_cprims m) -> parents_closed_cp (m_cprims m) ->
+  NoDup (map c_name (m_classes m)) -> ctopo (m_classes m) -> parents_closed_c (m_classes m) ->
+  exists cplocal cpm pt local,
+    cprims_pass1 (m_patterns m) (m_cprims m) [] 0 = Ok cplocal
+    /\ cprims_pass2 (m_cprims m) cplocal 0 = Ok cpm
+    /\ props_table (m_classes m) [] = Ok pt
+    /\ classes_pass1 m cpm pt (m_classes m) [] 0 = Ok local
+    /\ (forall cp, In cp (m_cprims m) ->
+        forall v, holds_opt (alookup (cp_name cp) cpm) v
+                  <-> (forall a, cp_ancestor_or_self (m_cprims m) (cp_name cp) a ->
+                                 holds_opt (alookup a cplocal) v))
+    /\ (forall c, In c (m_classes m) ->
+        forall k v, holds_opt (look res (c_name c) k) v
+                    <-> (forall a, c_ancestor_or_self (m_classes m) (c_name c) a ->
+                                   holds_opt (look local a k) v)).
+Proof. exact infer_stack_exact. Qed.
+Print Assumptions C15_infer_stack_exact.
+
+(** Non-vacuity: a chain of three constrained primitives [P0 <- P1 <- P2] (len <= 10, >= 1,
+    >= 2) and two classes ([C0.b : P2]; [C1(C0)] with [len(self.b) < 8]) satisfies the
+    hypotheses and [infer] returns constraints for it. *)
+Example C15_infer_stack_nonvacuous :
+  observe stack_example
+  = Ok [[[Some (mk_constraints (Some (Some 2, Some 10)) None None None)]];
+        [[Some (mk_constraints (Some (Some 2, Some 7)) None None None)]]]
+  /\ NoDup (map cp_name (m_cprims stack_example)) /\ topo (m_cprims stack_example)
+  /\ parents_closed_cp (m_cprims stack_example)
+  /\ NoDup (map c_name (m_classes stack_example)) /\ ctopo (m_classes stack_example)
+  /\ parents_closed_c (m_classes stack_example).
+Proof. split; [vm_compute; reflexivity | exact stack_example_wf]. Qed.
+Print Assumptions C15_infer_stack_nonvacuous.
+
 (** [infer_class_exact], partial. The full statement is
 
       infer m = Ok res -> for every class C of m, property p of C (own or inherited) and
-      level i: for all n >= 0, in_range_opt (k_len (res C (p, i))) n <->
-      every invariant of C, of an ancestor of C, or of the constrained-primitive chain of
-      the type at level i, that is recognised for p, allows n; likewise for the pattern
-      list (as a set) and the literal sets; and infer m = Err _ when some such
+      level i: the constraints res C (p, i) hold of a value exactly when every invariant
+      of C, of an ancestor of C, or of the constrained-primitive chain of the type at
+      level i, that is recognised for p, holds of it; and infer m = Err _ when some such
       conjunction is unsatisfiable; never Crash.
 
-    Proved here: the per-step facts the composition consists of — every reduction result
-    is a well-formed range with exactly the meaning of its constraints ([C15_reduce_*]),
-    every merge the stacking performs (after the added check) is a meet and preserves
-    well-formedness ([C15_merge_*]), contradictions are reported exactly
-    ([C15_merge_check_exact]). Not proved: the induction over the topological order
-    gluing these steps through the association-list maps of [InferInline.v]; that part
-    is covered by the correspondence stream and by the brute-force oracle only. The
-    end-to-end behaviour on a two-level hierarchy with a constrained primitive: *)
+    Proved: the induction over the topological order for constrained primitives and for
+    classes ([C15_infer_stack_exact]: the result is the conjunction of the first-pass
+    results over all ancestors), the meaning of every merge ([C15_merge_constraints_meet],
+    [C15_merge_len_meet], [C15_patterns_conj], [C15_merge_sets_spec]), of every reduction
+    ([C15_reduce_*]), of every recognised length invariant ([C15_match_len_sound]) and of
+    the added contradiction check ([C15_merge_check_exact]).
+    NOT proved: (a) that the first-pass map of ONE class / ONE primitive ([look local a k],
+    [alookup a cplocal]) means the conjunction of its own recognised invariants and, for
+    classes, of the in-lined primitive — i.e. the bookkeeping of [collect_len],
+    [group_patterns], [infer_sets], [cmap_merge_all], [inline_levels]; (b) totality of the
+    two stacking passes ([<> Crash]) and "unsatisfiable => Err" across inheritance as ONE
+    statement about [infer] (the per-merge facts are [C15_merge_total] and
+    [C15_merge_check_exact]). These rest on the correspondence stream and the oracle. The
+    end-to-end behaviour on a three-level hierarchy with a constrained primitive: *)
 Example C15_infer_class_exact_partial :
   let b := EMember (EName self_id) [98%N] in
   let lenb := ECall len_id [b] in
